@@ -210,3 +210,52 @@ def target_remove():
 
 def targets():
     return [target_reset(), target_register(), target_remove()]
+
+
+def target_get_elements():
+    """get_elements(default_only, private): the result is a function of the registry tables AS THEY ARE NOW --
+    key in result  <=>  key in (_DEFAULT_ELEMENTS if default_only else _ELEMENTS) and (private or key not in _PRIVATE_ELEMENTS),
+    result[key] is _ELEMENTS[key]; nothing is written to module-level state (so nothing can be served from an earlier call)."""
+    qual = "get_elements"
+
+    def run(sess: Session):
+        from . import purity
+        for default_only in (False, True):
+            for private in (False, True):
+                ex = executor(sess)
+                ex.consts["_is_boolean"] = ("builtin", lambda ex_, st_, a, kw, n: [(z3.BoolVal(True), st_)])
+                st, refs, E, D, Pv = new_state()
+                pre = st.clone()
+                tag = f"[default_only={default_only},private={private}]"
+                try:
+                    outs = _call(ex, qual, st, kwargs={"default_only": z3.BoolVal(default_only), "private": z3.BoolVal(private)})
+                except Unsupported as u:
+                    sess.unsupported(f"{tag} {u}")
+                    continue
+                n_ok = 0
+                for val, s1 in outs:
+                    if isinstance(val, Raised):
+                        sess.check("exc-free", s1.pc, z3.BoolVal(False), val.exc.line, label=f"{tag}{val.exc.name}")
+                        continue
+                    n_ok += 1
+                    out = s1.deref(val)
+                    if not isinstance(out, DictV):
+                        sess.check("post", s1.pc, z3.BoolVal(False), 0, label=f"{tag}returns a dict")
+                        continue
+                    k = k_()
+                    src = D if default_only else E
+                    member = z3.And(src.has(k), z3.BoolVal(True) if private else z3.Not(Pv.has(k)))
+                    sess.check("post", s1.pc, z3.ForAll([k], out.has(k) == member), 0, label=f"{tag}keys = current table, minus private symbols unless asked for")
+                    sess.check("post", s1.pc, z3.ForAll([k], z3.Implies(out.has(k), out.get(k) == E.get(k))), 0, label=f"{tag}values are the currently registered classes")
+                    sess.check("frame", s1.pc, z3.And(*[s1.deref(refs[n]).same_as(pre.deref(refs[n])) for n in refs]), 0, label=f"{tag}registry tables unchanged")
+                    sess.check("frame", s1.pc, z3.BoolVal(isinstance(val, Ref) and all(val.addr != r.addr for r in refs.values())), 0, label=f"{tag}a new dict, not one of the tables")
+                sess.check("cover", [], z3.BoolVal(n_ok >= 1), 0, label=f"{tag}normal exit")
+        purity.check(sess, MOD, [qual])
+    return (f"{MOD}:{qual}", MOD, qual, run)
+
+
+_targets_without_get = targets
+
+
+def targets():      # noqa: F811
+    return _targets_without_get() + [target_get_elements()]
